@@ -290,8 +290,21 @@ pub fn check_case(case: &Case, rec: &mut Rec) -> CaseResult {
     let mut nontrivial = false;
     let mut prev: Vec<Option<i16>> = vec![None; case.axes.len()];
     let mut evals = 0u64;
-    for r in 0..rounds {
-        let user: Vec<i32> = probes.iter().map(|p| p[r.min(p.len() - 1)]).collect();
+    // round r < rounds: every axis at its r-th probe; then (fonts with several axes) one axis at
+    // each of its probes while all the others sit exactly at their defaults: each axis is
+    // normalised through its own segment map whatever the other coordinates are
+    let mut plan: Vec<(usize, Vec<i32>)> = (0..rounds).map(|r| (r, probes.iter().map(|p| p[r.min(p.len() - 1)]).collect())).collect();
+    if case.axes.len() >= 2 {
+        for (ai, p) in probes.iter().enumerate() {
+            for v in p {
+                let mut user: Vec<i32> = case.axes.iter().map(|a| a.default).collect();
+                user[ai] = *v;
+                plan.push((usize::MAX, user));
+            }
+        }
+        rec.class("solo-axis-rounds");
+    }
+    for (r, user) in plan {
         let tuple = fvar
             .normalize(user.iter().map(|v| Fixed::from_raw(*v)), avar.as_ref())
             .map_err(|e| fail("normalize-err", format!("normalize({:?}) failed: {:?}", user, e)))?;
